@@ -15,7 +15,9 @@ EXPLANATION = (
     "CONNECTED, with a close request after it on the same path; W4 - after the DISCONNECT no write may remain reachable "
     "(state in which no operation writes, every writing timer cancelled); W5 - every return to IDLE outside the loss "
     "closure closes the transport (else connect() is honoured again on the same connection: second CONNECT); W6 - the "
-    "loss closure writes nothing and cancels every timer that can write. Liveness of the transport object is not modelled.")
+    "loss closure writes nothing and cancels every timer that can write; W7 - every retry timer stays reachable for those "
+    "cancel loops: no request leaves its window with the timer pending and no alarm field is overwritten while the old "
+    "timer is live (an orphaned retry timer re-sends its packet after the loss). Liveness of the transport object is not modelled.")
 ASSUMPTIONS = ["a TCP transport still sends write() issued after loseConnection() until its buffer is flushed"]
 
 C2S = {pdu_class_name(n) for k, (n, d) in SPEC_TYPES.items() if d in ("c2s", "both")}
@@ -104,6 +106,12 @@ def check(ctx):
             fnc = tr.entry.func
             ctx.ob("W6", "%s loss: %s" % (cq, what), ok, where=where(ev) if ev is not None else "%s:%d" % (fnc.file, fnc.node.lineno),
                    function=fnc.qual, construct="%s/loss/%s" % (cls.qual, what), nontrivial=False, msg="connectionLost: %s fails on a path" % what)
+        # W7: every retry timer stays reachable for the loss closure's cancel loops.  A request removed from its window with the
+        # timer still pending, or an alarm field overwritten while the old timer is live, leaves a timer no later code can cancel;
+        # every such timer's callback re-sends its packet, so it writes after the connection was reported lost.
+        if cls is not a.protos[0]:
+            from .c13 import timer_discipline
+            timer_discipline(ctx, a, cls, r_cancel="W7", r_arm="W7")
         # broker-only classes never encoded by client code
         for tr in contexts(cat):
             for e in tr.events:
